@@ -78,11 +78,11 @@ func (s *TieredCompactionStrategy) selectL0Compaction() (*CompactionTask, error)
 		return nil, nil
 	}
 
-	// Sort L0 files by sequence number to prioritize older files
+	// Sort L0 files by age to prioritize older files
 	files := make([]*SSTableInfo, len(s.levels[0]))
 	copy(files, s.levels[0])
 	sort.Slice(files, func(i, j int) bool {
-		return files[i].Sequence < files[j].Sequence
+		return files[i].Timestamp < files[j].Timestamp
 	})
 
 	// Take up to maxCompactFiles from L0
@@ -137,7 +137,7 @@ func (s *TieredCompactionStrategy) selectPromotionCompaction(level int) (*Compac
 	files := make([]*SSTableInfo, len(s.levels[level]))
 	copy(files, s.levels[level])
 	sort.Slice(files, func(i, j int) bool {
-		return files[i].Sequence < files[j].Sequence
+		return files[i].Timestamp < files[j].Timestamp
 	})
 
 	// Select the oldest file
@@ -162,7 +162,7 @@ func (s *TieredCompactionStrategy) selectOverlappingCompaction(level int) (*Comp
 	files := make([]*SSTableInfo, len(s.levels[level]))
 	copy(files, s.levels[level])
 	sort.Slice(files, func(i, j int) bool {
-		return files[i].Sequence < files[j].Sequence
+		return files[i].Timestamp < files[j].Timestamp
 	})
 
 	// Select an initial file from this level
